@@ -59,14 +59,14 @@ PROPS = {
         assumptions=["64-bit descriptor values covered on a boundary alphabet"],
     ),
     "C15": dict(
-        profiles=["chk"], level="exploration", units=units_simple(1),
+        profiles=BOTH, level="exploration", units=units_simple(1),
         rule=("tss_segment_unchecked for every WIDE pointer (every u64 with <=3 set bits, <=3 clear bits, every run of ones: ~90k) decoded with the 16-byte system-descriptor layout; "
               "tss_segment(&'static); 6 presets + 4 constructors decoded to kind/L/D/DPL/P; dpl() for 4 DPLs x 130 surrounding patterns x {user,system}; "
               "TSS and DescriptorTablePointer layouts measured by pointer arithmetic and raw bytes."),
         assumptions=["descriptor layout transcribed from SDM vol.3 fig 8-4 / 3-8 is the trusted base"],
     ),
     "C19": dict(
-        profiles=["chk"], level="exploration", units=units_simple(1),
+        profiles=BOTH, level="exploration", units=units_simple(1),
         rule=("finite and complete: every named flag of the 14 bitflags types (walked through bitflags::Flags::FLAGS) compared both ways with the "
               "hand-transcribed manual table; 11 MSR numbers; page sizes; Pat::DEFAULT; MXCSR reset; all 256 u8 for ExceptionVector/PatMemoryType/"
               "DebugAddressRegisterNumber; all 65536 u16 for PrivilegeLevel, SegmentSelector (new/index/rpl/set_rpl), Pcid, SelectorErrorCode; "
@@ -85,7 +85,7 @@ PROPS = {
         assumptions=["a panic is not a value", "2^64 domain covered on the boundary alphabet B64, histories to depth 2"],
     ),
     "C04": dict(
-        profiles=["chk"], level="exploration", units=units_with32(16),
+        profiles=BOTH, level="exploration", units=units_with32(16),
         rule=("all 65536 u16 for PageTableIndex/PageOffset new/new_truncate (exhaustive); every canonical B64 address and every address with "
               "one of the five fields (offset,p1..p4) running through ALL its values while the other four take {0,1,255,256,511}^4: "
               "p1..p4_index, page_offset, page_table_index(level) for the address and Page<4K/2M/1G>, and from_page_table_indices* as exact inverse, "
@@ -167,10 +167,22 @@ MAPPER_CONFIGS = [
     ("rec5:0x0:asc:C",              "2,2;3,2;4,0", "3,3;4,2;5,0"),
 ]
 
+# the same engine built without overflow checks / debug assertions (profile rel) for one configuration per mapper family:
+# behaviour guarded only by debug_assert!, or arithmetic that wraps silently, shows only there
+MAPPER_REL_CONFIGS = [
+    ("offset:0x0:asc:A",            "2,2;3,0",     "3,2;4,0"),
+    ("mapped:0x3fffd000:lifo:A",    "2,2;3,0",     "3,2;4,0"),
+    ("rec126:0x3fffc000:asc:A",     "2,2;3,0",     "3,2;4,0"),
+    ("offset:0x40000000:asc:B",     "2,1",         "3,1"),
+    ("rec5:0x0:asc:C",              "2,2",         "3,2"),
+]
+
 def mapper_units(tier):
     us = []
     for cfg, q, t in MAPPER_CONFIGS:
         us.append(dict(sub="MAPPER", profile="chk", args=[cfg, q if tier == "quick" else t, "1500000" if tier == "quick" else "20000000"]))
+    for cfg, q, t in MAPPER_REL_CONFIGS:
+        us.append(dict(sub="MAPPER", profile="rel", args=[cfg, q if tier == "quick" else t, "1500000" if tier == "quick" else "20000000"]))
     return us
 
 _MAPPER_RULE = ("explicit-state breadth-first search over call histories on the real mappers (OffsetPageTable with several physical offsets, "
@@ -183,7 +195,7 @@ _MAPPER_RULE = ("explicit-state breadth-first search over call histories on the 
                 "parent-entry flags, allocation/deallocation logs, access monitor; in every new state: translate/translate_addr/translate_page on the probe addresses == R1 == single-address hardware walk.")
 
 def _mapper_prop(extra_rule, assumptions):
-    return dict(profiles=["chk"], level="model_checking", units=mapper_units, engine="vh MAPPER",
+    return dict(profiles=BOTH, level="model_checking", units=mapper_units, engine="vh MAPPER",
                 rule=_MAPPER_RULE + " " + extra_rule, assumptions=assumptions, timeout={"quick": 300, "thorough": 3000},
                 technique="explicit-state model checking (BFS with state hashing, deviation-bounded) of the real mapper code against a reference model")
 
@@ -249,7 +261,7 @@ PROPS["C18"] = dict(
     assumptions=_E4 + ["'without touching memory' observed through canaries around the port object and the absence of other sensitive instructions, not through a memory monitor"],
 )
 def c20_units(tier):
-    us = [dict(sub="C20", profile="chk", shards=16)]
+    us = [dict(sub="C20", profile="chk", shards=16), dict(sub="C20", profile="rel", shards=16)]
     # dynamic part: every recursive-window page touched in the mapper search is the recursive address of a table the call concerns
     for cfg, q, t in MAPPER_CONFIGS:
         if cfg.startswith("rec"):
@@ -258,7 +270,7 @@ def c20_units(tier):
         us.append(dict(sub="C20", profile="chk", args=["ctor", str(R), pb]))
     return us
 PROPS["C20"] = dict(
-    profiles=["chk"], level="model_checking", timeout={"quick": 300, "thorough": 3000}, units=c20_units, engine="vh C20",
+    profiles=BOTH, level="model_checking", timeout={"quick": 300, "thorough": 3000}, units=c20_units, engine="vh C20",
     rule=("address computation: ALL 512 recursive indices x each upper page index through all 512 values (others in {0,1,255,256,511}) x 3 sizes, p3/p2/p1 table pages and pointers "
           "(through the verif_hooks accessors) == sign_extend(R<<39|R<<30|R<<21|p4<<12) etc.; constructor: for R in {1,2,126,200,248} a real table at (R,R,R,R) (the simulated level-4 "
           "frame) and real pages at every near-recursive address (one index +1/-1/+2 in each position) x 6 CR3 contents (emulated mov r,cr3; physical bases incl. addresses above 2^48) x 7 contents of the candidate slot (incl. a frame differing only in physical bits 48..51): "
